@@ -277,3 +277,26 @@ def mem_family(k=2):
                 if t not in seen:
                     seen.add(t)
                     yield b
+
+
+def sandwich_family():
+    """Three memory/storage operations where the middle one may invalidate what the outer ones have in common:
+    load-store-load, store-load-store and store-store-load, over the full address slot sets (one value slot)."""
+    mem_loads = [("MLOAD", a) for a in ADDR9] + [("KECCAK256", a, C(32)) for a in ADDR9]
+    mem_stores = [(op, a, Z) for op in ("MSTORE", "MSTORE8") for a in ADDR9]
+    sto_loads = [("SLOAD", k) for k in KEYS4]
+    sto_stores = [("SSTORE", k, v) for k in KEYS4 for v in (Z, C(7))]
+    seen = set()
+    for loads, stores in ((mem_loads, mem_stores), (sto_loads, sto_stores)):
+        pats = itertools.chain(
+            ((a, b, c) for a in loads for b in stores for c in loads),
+            ((a, b, c) for a in stores for b in loads for c in stores),
+            ((a, b, c) for a in stores for b in stores for c in loads))
+        for trio in pats:
+            b = compile_copy(list(trio), 3)
+            if b is None:
+                continue
+            t = tuple(b)
+            if t not in seen:
+                seen.add(t)
+                yield b
